@@ -48,9 +48,36 @@ fn main() {
         "replay" => replay(&args),
         "digest" => digest(&args),
         "export" => export(&args),
+        "export-target-grid" => {
+            // <family> <variant> <par> <out file>: a compact batch-shape grid for a foreign-target backend
+            let reg = sim::registry::build();
+            let (prop, seed) = common(&args);
+            let fam = arg(&args, "--family").unwrap_or_else(|| die("--family"));
+            let var = arg(&args, "--variant").unwrap_or_else(|| die("--variant"));
+            let par: usize = arg(&args, "--par").and_then(|s| s.parse().ok()).unwrap_or_else(|| die("--par"));
+            let out = arg(&args, "--out").unwrap_or_else(|| die("--out"));
+            let c = sim::engine::target_grid_case(&reg, fam, var, par, false, seed, args.iter().any(|a| a == "--compact")).unwrap_or_else(|| die("no such family/variant"));
+            let anchors = Anchors::compute_for(&reg, Some(&[fam]));
+            install_quiet_panic_hook();
+            let r = execute_mode(&reg, &anchors, &c.cfg, &c.ops, seed, None, &Known::default(), false);
+            let j = json!({
+                "format": "block-ciphers-sim-replay/1", "property": prop.name(), "engine": "native", "seed": seed,
+                "environment": c.cfg.to_json(&reg), "ops": c.ops.iter().map(|o| o.to_json(&reg)).collect::<Vec<_>>(), "violation": Value::Null,
+                "meta": {"grid_case": c.label, "native_h_portable": format!("{:016x}", r.h_portable), "native_violation": r.violation.as_ref().map(|v| v.to_json())},
+            });
+            std::fs::write(out, serde_json::to_string(&j).unwrap()).unwrap_or_else(|e| die(&format!("write {}: {}", out, e)));
+            println!("{} {:016x}", out, r.h_portable);
+        }
+        "anchor-table" => {
+            let reg = sim::registry::build();
+            let order: Option<u64> = arg(&args, "--anchor-order").and_then(|s| s.parse().ok());
+            let a = Anchors::compute_ordered(&reg, None, order);
+            println!("{}", serde_json::to_string(&anchor_table_json(&reg, &a)).unwrap());
+        }
         "cold-one" => cold_one(&args),
         "one" => one(&args),
         "grid" => grid(&args),
+        "churn" => churn(&args),
         "exec-file" => exec_file(&args),
         "selftest-model" => selftest_model(),
         "cold-exec" => cold_exec(&args),
@@ -69,7 +96,8 @@ fn common(args: &[String]) -> (Prop, u64) {
 fn worker(args: &[String]) {
     // anchors first: nothing else has run in this process yet
     let reg = sim::registry::build();
-    let anchors = Anchors::compute(&reg);
+    let order: Option<u64> = arg(args, "--anchor-order").and_then(|s| s.parse().ok());
+    let anchors = Anchors::compute_ordered(&reg, None, order);
     install_quiet_panic_hook();
     let (prop, seed) = common(args);
     let total: u64 = arg(args, "--total").and_then(|s| s.parse().ok()).unwrap_or(1000);
@@ -116,11 +144,23 @@ fn worker(args: &[String]) {
         j["interleavings"] = json!([]);
     }
     j["anchor_digest"] = json!(format!("{:016x}", anchors.digest));
+    j["anchor_table"] = anchor_table_json(&reg, &anchors);
+    j["anchor_order"] = json!(order);
     j["anchors"] = json!(anchors.entries.len());
     let s = cpufeatures::sim::stats();
     j["seam"] = json!({"detect_calls": s.detect_calls, "masked_decisions": s.masked_decisions, "cache_hits": s.cache_hits,
         "cache_misses": s.cache_misses, "token_reads": s.token_reads, "stale_token_reads": s.stale_token_reads});
     println!("{}", serde_json::to_string(&j).unwrap());
+}
+
+fn anchor_table_json(reg: &sim::registry::Registry, a: &Anchors) -> Value {
+    let mut m = serde_json::Map::new();
+    for e in &a.entries {
+        let mut d = sim::prng::Digest::default();
+        d.bytes(&e.output);
+        m.insert(format!("{}|{}", reg.types[e.ty].name, e.dir.name()), json!(format!("{:016x}", d.finish())));
+    }
+    Value::Object(m)
 }
 
 fn read_u64s(path: &str) -> Vec<u64> {
@@ -150,6 +190,7 @@ fn check(args: &[String]) {
             .args(["--stride", &workers.to_string(), "--offset", &w.to_string(), "--budget-s", &budget.to_string()])
             .args(["--replay-dir", &replay_dir, "--known", &known_path, "--digest-file", &df])
             .args(["--breadcrumb", &format!("{}/{}-crumb-{}", tmp, prop.name(), w), "--tmp", &tmp])
+            .args(if w == 0 { vec![] } else { vec!["--anchor-order".to_string(), (seed ^ (w << 32)).to_string()] })
             .stdout(Stdio::piped())
             .stderr(Stdio::piped())
             .spawn()
@@ -165,6 +206,7 @@ fn check(args: &[String]) {
     let mut samples: Vec<Value> = Vec::new();
     let mut herr: Vec<String> = Vec::new();
     let mut anchor_digests: Vec<String> = Vec::new();
+    let mut anchor_tables: Vec<(Option<u64>, serde_json::Map<String, Value>)> = Vec::new();
     let mut digests: Vec<u64> = Vec::new();
     let mut inter: Vec<u64> = Vec::new();
     let mut seam = json!({});
@@ -216,6 +258,9 @@ fn check(args: &[String]) {
             herr.push(e.as_str().unwrap_or("").to_string());
         }
         anchor_digests.push(j["anchor_digest"].as_str().unwrap_or("").to_string());
+        if let Some(t) = j["anchor_table"].as_object() {
+            anchor_tables.push((j["anchor_order"].as_u64(), t.clone()));
+        }
         portable_xor ^= u64::from_str_radix(j["portable_xor"].as_str().unwrap_or("0"), 16).unwrap_or(0);
         if let Some(o) = j["seam"].as_object() {
             for (k, v) in o {
@@ -275,6 +320,50 @@ fn check(args: &[String]) {
             }
         }
     }
+    // churn phase (C15): volume and key repetition (see engine::churn_type), one child per family group
+    let mut churn_json = Value::Null;
+    if prop == Prop::C15 {
+        let tc = Instant::now();
+        let scale = if tier == "quick" { 1 } else { 8 };
+        let kids: Vec<_> = (0..workers)
+            .map(|w| {
+                Command::new(&exe)
+                    .args(["churn", "--prop", prop.name(), "--seed", &seed.to_string(), "--stride", &workers.to_string(), "--offset", &w.to_string(), "--scale", &scale.to_string()])
+                    .stdout(Stdio::piped())
+                    .stderr(Stdio::piped())
+                    .spawn()
+                    .unwrap_or_else(|e| die(&format!("spawn churn: {}", e)))
+            })
+            .collect();
+        let (mut ct, mut cc, mut cp) = (0u64, 0u64, 0u64);
+        for (w, k) in kids.into_iter().enumerate() {
+            let out = k.wait_with_output().unwrap_or_else(|e| die(&format!("wait churn: {}", e)));
+            let so = String::from_utf8_lossy(&out.stdout).to_string();
+            let done: Option<Value> = so.lines().find_map(|l| l.strip_prefix("@churn-done ")).and_then(|x| serde_json::from_str(x).ok());
+            match done {
+                Some(j) if out.status.success() => {
+                    ct += j["types"].as_u64().unwrap_or(0);
+                    cc += j["constructions"].as_u64().unwrap_or(0);
+                    cp += j["checkpoints"].as_u64().unwrap_or(0);
+                    for v in j["violations"].as_array().cloned().unwrap_or_default() {
+                        let path = format!("{}/C15-churn-{}-{}.json", replay_dir, seed, v["type"].as_str().unwrap_or("x").replace("::", "-").replace(['<', '>', ',', ' '], "_"));
+                        let _ = std::fs::create_dir_all(&replay_dir);
+                        let rj = json!({"format": "block-ciphers-sim-replay/1", "property": "C15", "engine": "native", "seed": seed,
+                            "churn": {"type": v["type"], "n": v["n"]}, "violation": v["violation"]});
+                        let _ = std::fs::write(&path, serde_json::to_string_pretty(&rj).unwrap());
+                        violations.push(json!({"replay": path, "violation": v["violation"]}));
+                    }
+                }
+                _ => {
+                    let last = so.lines().rev().find_map(|l| l.strip_prefix("@type ")).unwrap_or("?").to_string();
+                    herr.push(format!("churn worker {} ended abnormally while churning {}: {:?}", w, last, out.status));
+                }
+            }
+        }
+        runs += ct;
+        churn_json = json!({"what": "per family (default build and one other variant): one long-lived instance of key A, then thousands of constructions and drops cycling over five other keys (two random, three related to A); at checkpoints (every 251st construction, around 256/1024/4096/65536, at the end) the long-lived instance and a fresh instance of A must return what A returned at the start",
+            "types": ct, "constructions": cc, "checkpoints": cp, "wall_s": tc.elapsed().as_secs_f64()});
+    }
     // cold-start phase (C15, C12): one history per fresh process, oracles deferred
     let cold_total: u64 = arg(args, "--cold").and_then(|s| s.parse().ok()).unwrap_or(match (prop, tier.as_str()) {
         (Prop::C15, "quick") | (Prop::C12, "quick") => 3000,
@@ -305,9 +394,34 @@ fn check(args: &[String]) {
     anchor_digests.sort();
     anchor_digests.dedup();
     if anchor_digests.len() > 1 {
-        // pristine tables differ between identically started processes: results depend on something
-        // other than key and input
-        herr.push(format!("anchor tables differ between worker processes: {:?}", anchor_digests));
+        // Pristine tables differ between processes that computed them in different orders: what a fresh
+        // instance returns depends on what ran earlier in the process. Name the entry and the two orders.
+        let mut reported = false;
+        if let Some((o0, t0)) = anchor_tables.first() {
+            'outer: for (o1, t1) in anchor_tables.iter().skip(1) {
+                for (k, v) in t0 {
+                    if t1.get(k).map(|x| x != v).unwrap_or(false) {
+                        let vj = json!({"property": "C15", "class": "cross-process-anchor", "step": 0, "family": "", "variant": "",
+                            "detail": format!("{}: the value a freshly constructed instance returns at process start depends on the order in which other types were used before it in the process (anchor orders {:?} vs {:?})", k, o0, o1),
+                            "expected": "", "got": "", "also_violates": []});
+                        let path = format!("{}/{}-anchor-order-{}.json", replay_dir, prop.name(), seed);
+                        let _ = std::fs::create_dir_all(&replay_dir);
+                        let rj = json!({"format": "block-ciphers-sim-replay/1", "property": "C15", "engine": "native", "anchor_orders": [o0, o1], "entry": k, "violation": vj});
+                        let _ = std::fs::write(&path, serde_json::to_string_pretty(&rj).unwrap());
+                        if prop == Prop::C15 {
+                            violations.push(json!({"replay": path, "violation": vj}));
+                        } else if notes.len() < 12 {
+                            notes.push(format!("note: C15-class divergence (pristine anchor tables differ between processes with different type orders: {}), not this check's property", k));
+                        }
+                        reported = true;
+                        break 'outer;
+                    }
+                }
+            }
+        }
+        if !reported {
+            herr.push(format!("anchor tables differ between worker processes: {:?}", anchor_digests));
+        }
     }
     let wall = t0.elapsed().as_secs_f64();
     let reg = sim::registry::build();
@@ -360,6 +474,7 @@ fn check(args: &[String]) {
             "h_portable_xor": format!("{:016x}", portable_xor),
             "cold_start": cold_json,
             "grid": grid_json,
+            "churn": churn_json,
             "notes": notes,
         },
         "assumptions": [
@@ -425,6 +540,43 @@ fn replay(args: &[String]) {
     let s = std::fs::read_to_string(path).unwrap_or_else(|e| die(&format!("read {}: {}", path, e)));
     let v: Value = serde_json::from_str(&s).unwrap_or_else(|e| die(&format!("parse {}: {}", path, e)));
     let cold = v.get("cold").and_then(|x| x.as_bool()).unwrap_or(false);
+    if let Some(c) = v.get("churn").filter(|x| x.is_object()) {
+        let reg = sim::registry::build();
+        install_quiet_panic_hook();
+        let ty = reg.type_by_name(c["type"].as_str().unwrap_or("")).unwrap_or_else(|| die("churn type"));
+        let o = sim::engine::churn_type(&reg, ty, v["seed"].as_u64().unwrap_or(0), c["n"].as_u64().unwrap_or(0));
+        match o.violation {
+            Some(x) => {
+                println!("{}", x.to_json());
+                println!("REPRODUCED");
+                println!("VIOLATION property=C15 replay={}", path);
+                std::process::exit(1);
+            }
+            None => println!("NOT-REPRODUCED: {} constructions, {} checkpoints without a divergence", o.constructions, o.checkpoints),
+        }
+        return;
+    }
+    if let Some(orders) = v.get("anchor_orders").and_then(|x| x.as_array()) {
+        let exe = std::env::current_exe().unwrap();
+        let entry = v.get("entry").and_then(|x| x.as_str()).unwrap_or("");
+        let mut vals = Vec::new();
+        for o in orders {
+            let mut a = vec!["anchor-table".to_string()];
+            if let Some(n) = o.as_u64() {
+                a.push("--anchor-order".into());
+                a.push(n.to_string());
+            }
+            let j = spawn_json(&exe, &a).unwrap_or_else(|e| die(&e));
+            vals.push(j.get(entry).cloned().unwrap_or(Value::Null));
+        }
+        if vals.len() == 2 && vals[0] != vals[1] {
+            println!("REPRODUCED: {} is {} in a process that computes its anchors in order {:?} and {} in order {:?}", entry, vals[0], orders[0], vals[1], orders[1]);
+            println!("VIOLATION property=C15 replay={}", path);
+            std::process::exit(1);
+        }
+        println!("NOT-REPRODUCED: {} has the same pristine value under both orders", entry);
+        return;
+    }
     if let Some(wp) = v.get("worker_prefix").filter(|x| x.is_object()) {
         // the recorded outcome depends on what the finding worker's earlier runs left in process-global state:
         // re-execute that worker's deterministic sequence of runs up to the recorded one
@@ -576,6 +728,7 @@ fn run_result_json(reg: &sim::registry::Registry, r: &RunResult) -> Value {
         "h_all": format!("{:016x}", r.h_all),
         "nontrivial": r.nontrivial(),
         "harness_error": r.harness_error,
+        "records": r.records,
     })
 }
 
@@ -671,7 +824,7 @@ fn cold_phase(prop: Prop, seed: u64, total: u64, workers: u64, known_path: &str,
                                             rj
                                         };
                                         let _ = std::fs::write(format!("{}.orig.json", base), serde_json::to_string_pretty(&mk(&l.cfg, &l.ops, &v0, json!({"run": i, "minimised": false}))).unwrap());
-                                        let rr = RunResult { seed: rs, cfg: l.cfg.clone(), ops: l.ops.clone(), violation: Some(v0.clone()), notes: vec![], stats: Stats::default(), h_all: 0, h_portable: 0, task_order: 0, insts_created: 0, harness_error: None };
+                                        let rr = RunResult { seed: rs, cfg: l.cfg.clone(), ops: l.ops.clone(), violation: Some(v0.clone()), notes: vec![], stats: Stats::default(), h_all: 0, h_portable: 0, task_order: 0, insts_created: 0, harness_error: None, records: vec![] };
                                         let cand = format!("{}/cold-cand-{}.json", tmp, w);
                                         let mut exec = |cfg: &RunCfg, ops: &[Op]| -> Option<Violation> {
                                             let rj = mk(cfg, ops, &v0, json!({}));
@@ -879,7 +1032,7 @@ fn died_list(exe: &std::path::Path, prop: Prop, rs: u64, cfg0: &RunCfg, ops0: &[
     };
     let _ = std::fs::create_dir_all(&replay_dir);
     let _ = std::fs::write(format!("{}.orig.json", base), serde_json::to_string_pretty(&mk(&l.cfg, &l.ops, &v0, json!({"run": ri, "minimised": false, "worker_stderr": tail}))).unwrap());
-    let rr = RunResult { seed: rs, cfg: l.cfg.clone(), ops: l.ops.clone(), violation: Some(v0.clone()), notes: vec![], stats: Stats::default(), h_all: 0, h_portable: 0, task_order: 0, insts_created: 0, harness_error: None };
+    let rr = RunResult { seed: rs, cfg: l.cfg.clone(), ops: l.ops.clone(), violation: Some(v0.clone()), notes: vec![], stats: Stats::default(), h_all: 0, h_portable: 0, task_order: 0, insts_created: 0, harness_error: None, records: vec![] };
     let cand = format!("{}/died-cand-{}.json", tmp, ri);
     let mut exec = |cfg: &RunCfg, ops: &[Op]| -> Option<Violation> {
         let rj = mk(cfg, ops, &v0, json!({}));
@@ -961,4 +1114,46 @@ fn grid(args: &[String]) {
     }
     println!("@grid-done {}", serde_json::to_string(&json!({"cases": cases.len(), "operations_applied": gops, "cipher_calls": gcalls, "stats": stats.to_json(),
         "violations": violations, "harness_errors": herr, "known_hits": known_hits})).unwrap());
+}
+
+/// Churn phase worker: the combined types of the families with index = offset mod stride.
+fn churn(args: &[String]) {
+    let reg = sim::registry::build();
+    install_quiet_panic_hook();
+    let (_prop, seed) = common(args);
+    let stride: usize = arg(args, "--stride").and_then(|s| s.parse().ok()).unwrap_or(1);
+    let offset: usize = arg(args, "--offset").and_then(|s| s.parse().ok()).unwrap_or(0);
+    let only: Option<&str> = arg(args, "--type");
+    let scale: u64 = arg(args, "--scale").and_then(|s| s.parse().ok()).unwrap_or(1);
+    let (mut types, mut constructions, mut checkpoints) = (0u64, 0u64, 0u64);
+    let mut viol: Vec<Value> = Vec::new();
+    for (fi, fam) in reg.families.iter().enumerate() {
+        if only.is_none() && fi % stride != offset {
+            continue;
+        }
+        // the default build and one other variant
+        let mut vs: Vec<usize> = vec![0];
+        if fam.variants.len() > 1 {
+            vs.push(1 + (seed as usize + fi) % (fam.variants.len() - 1));
+        }
+        for vi in vs {
+            let ty = fam.variants[vi].both;
+            if let Some(o) = only {
+                if reg.types[ty].name != o {
+                    continue;
+                }
+            }
+            println!("@type {}", reg.types[ty].name);
+            let _ = std::io::stdout().flush();
+            let n = sim::engine::churn_count(fam.name) * scale;
+            let o = sim::engine::churn_type(&reg, ty, seed, n);
+            types += 1;
+            constructions += o.constructions;
+            checkpoints += o.checkpoints;
+            if let Some(v) = o.violation {
+                viol.push(json!({"type": reg.types[ty].name, "n": n, "violation": v.to_json()}));
+            }
+        }
+    }
+    println!("@churn-done {}", serde_json::to_string(&json!({"types": types, "constructions": constructions, "checkpoints": checkpoints, "violations": viol})).unwrap());
 }
